@@ -101,7 +101,9 @@ def main(argv):
                                                      "where": f"{os.path.relpath(last.filename, common.REPO)}:{last.lineno} in {last.name}"},
                                           "signature": f"raised/{type(e).__name__}/{os.path.relpath(last.filename, common.REPO)}:{last.name}",
                                           "theorem": None})
-        need_search = (broken or ctx.aux_mismatch) and not ctx.prop_mismatch and not replay_path
+        known_sigs = {k["signature"] for k in load_known() if k["property"] == pid and k["status"] == "known"}
+        need_search = (broken or ctx.aux_mismatch) and not replay_path and \
+            not [v for v in ctx.prop_mismatch if v["signature"] not in known_sigs]
         if need_search and hasattr(mod, "search"):
             ctx.note("proof obligation or auxiliary correspondence broken: running failing-input search on the implementation")
             mod.search(ctx)
